@@ -4,12 +4,16 @@ package main
 // the seed through rand.Shuffle with a recording swap.
 
 import (
+	"context"
 	"fmt"
 	"math/rand"
 	"strings"
+	"time"
 
 	"github.com/marekgalovic/anndb/cluster"
+	pb "github.com/marekgalovic/anndb/protobuf"
 	"github.com/marekgalovic/anndb/storage"
+	"github.com/marekgalovic/anndb/storage/raft"
 )
 
 func init() { runners["C16"] = runC16 }
@@ -44,6 +48,91 @@ func runPlaceCase(c *placeCase) {
 	}
 }
 
+// applyGroup stands in for the zero group: a proposal is committed and applied at once (on another goroutine, as the
+// ready loop would), so that DatasetManager.Create runs end to end.
+type applyGroup struct {
+	process, processSnapshot raft.ProcessFn
+	snapshot                 raft.SnapshotFn
+}
+
+func (g *applyGroup) RegisterProcessFn(f raft.ProcessFn) error { g.process = f; return nil }
+func (g *applyGroup) RegisterProcessSnapshotFn(f raft.ProcessFn) error {
+	g.processSnapshot = f
+	return nil
+}
+func (g *applyGroup) RegisterSnapshotFn(f raft.SnapshotFn) error { g.snapshot = f; return nil }
+func (g *applyGroup) LeaderId() uint64                           { return 1 }
+func (g *applyGroup) Propose(ctx context.Context, data []byte) error {
+	d := append([]byte(nil), data...)
+	go g.process(d)
+	return nil
+}
+
+// createPlacement: the replica assignment that DatasetManager.Create writes into the catalogue entry under the same seed
+func createPlacement(c *placeCase, parts int) ([][]uint64, error) {
+	conn, _ := cluster.NewConn(c.Members[0], "a", "")
+	for _, id := range c.Members {
+		conn.AddNode(id, fmt.Sprintf("addr-%d", id))
+	}
+	dm, err := storage.NewDatasetManager(&applyGroup{}, sharedBadger(), raft.NewTransport(c.Members[0], "a", conn), conn, storage.NewAllocator(conn))
+	if err != nil {
+		return nil, err
+	}
+	rand.Seed(c.Seed)
+	ctx, cancel := context.WithTimeout(context.Background(), 3*time.Second)
+	defer cancel()
+	ds, err := dm.Create(ctx, &pb.Dataset{Dimension: 2, Space: pb.Space_Euclidean, PartitionCount: uint32(parts), ReplicationFactor: uint32(c.R)})
+	if err != nil {
+		return nil, err
+	}
+	var out [][]uint64
+	for _, p := range ds.Meta().GetPartitions() {
+		out = append(out, append([]uint64(nil), p.GetNodeIds()...))
+	}
+	return out, nil
+}
+
+func createPlacementBad(c *placeCase, parts int, got [][]uint64) string {
+	if len(got) != parts {
+		return fmt.Sprintf("%d partitions stored, %d requested", len(got), parts)
+	}
+	want := c.R
+	if c.N < want {
+		want = c.N
+	}
+	member := map[uint64]bool{}
+	for _, m := range c.Members {
+		member[m] = true
+	}
+	for i, g := range got {
+		seen := map[uint64]bool{}
+		for _, id := range g {
+			if !member[id] || seen[id] {
+				return fmt.Sprintf("partition %d holds %v: not distinct current members", i, g)
+			}
+			seen[id] = true
+		}
+		if len(g) != want {
+			return fmt.Sprintf("partition %d has %d replicas, want min(R,N) = %d", i, len(g), want)
+		}
+	}
+	if c.N >= 4 {
+		for d := 1; d <= c.N && parts-d >= 12; d++ {
+			periodic := true
+			for i := 0; i+d < parts; i++ {
+				if fmt.Sprint(got[i]) != fmt.Sprint(got[i+d]) {
+					periodic = false
+					break
+				}
+			}
+			if periodic {
+				return fmt.Sprintf("partition i+%d always has the replica list of partition i: the partitions are not placed independently", d)
+			}
+		}
+	}
+	return ""
+}
+
 func natList(xs []int) string {
 	s := make([]string, len(xs))
 	for i, x := range xs {
@@ -61,7 +150,7 @@ func u64List(xs []uint64) string {
 
 func runC16(a *args) error {
 	r := newRng(a.seed)
-	st := newStats("N in 1..16 members, R in 1..8, P in 1..64 (quick: P <= 24), seeded math/rand; draws recovered by replaying the seed; non-trivial = P >= 2 and N >= 2; distinct by (N,P,R,seed)")
+	st := newStats("N in 1..16 members, R in 1..8, P in 1..64 (quick: P <= 24), seeded math/rand; draws recovered by replaying the seed; for every fourth case the real DatasetManager.Create runs (N+12.. partitions) and the replica assignment it stores is checked for validity and for period-d repetition; non-trivial = P >= 2 and N >= 2; distinct by (N,P,R,seed)")
 	var cases []placeCase
 	if a.replay != "" {
 		var c placeCase
@@ -91,6 +180,20 @@ func runC16(a *args) error {
 			}
 		}
 		runPlaceCase(c)
+		// what Create stores in the catalogue entry: the member order the allocator starts from is a map iteration, so the
+		// stored assignment cannot be compared draw for draw; it must be a valid placement (min(R,N) distinct members per
+		// partition) and, partitions being shuffled independently, must not repeat with a fixed period (for N >= 4 members
+		// and >= 12 compared pairs an independent placement does so with probability below 16 * 4^-12)
+		if i%4 == 0 && !c.Crash && a.replay == "" {
+			parts := c.N + 12 + c.P%8
+			got, err := createPlacement(c, parts)
+			st.count("create-compared")
+			if err != nil {
+				st.ImplFailures = append(st.ImplFailures, implFailure{Case: i, What: "DatasetManager.Create failed: " + err.Error(), Key: "create-error", Input: *c})
+			} else if why := createPlacementBad(c, parts, got); why != "" {
+				st.ImplFailures = append(st.ImplFailures, implFailure{Case: i, What: fmt.Sprintf("N=%d R=%d P=%d seed=%d: Create stored the replica assignment %v: %s", c.N, c.R, parts, c.Seed, got, why), Key: "create-placement", Input: *c})
+			}
+		}
 		st.Evaluations++
 		st.count(fmt.Sprintf("N:%d", c.N))
 		st.count(fmt.Sprintf("R:%d", c.R))
